@@ -49,6 +49,10 @@ class P:
 
 class T:
     """value-equal twins: == by key"""
+    # user objects may happen to have an attribute of this name; only symbolic expressions are identified by it (before
+    # krrood ebb82dc all instances of such a class collapsed into ONE domain element)
+    _id_ = 7
+
     def __init__(self, oid, k, a):
         self.oid, self.k, self.a = oid, k, a
 
@@ -559,9 +563,13 @@ def build_query(case, objs, quantifier="an", **qkw):
         k = c[0]
         if k == "cmp":
             if len(c) == 5 and c[4] == "bare":
-                # a BARE attribute used as a condition (its truthiness); for the analysis, the model and the Spec it is the
-                # comparison `attr != 0` (the attributes used are int-valued)
+                # a BARE attribute or int variable used as a condition (its truthiness); for the analysis, the model and the
+                # Spec it is the comparison `operand != 0` (the operands used are int-valued)
                 return opnd(c[2])
+            if len(c) == 5 and c[4] == "const":
+                # a Python bool CONSTANT given as a condition (ConditionType documents bool; read by its truth value since
+                # krrood 482b540); for the analysis, the model and the Spec it is the comparison of two int literals
+                return bool(PYOPS[c[1]](c[2][1], c[3][1]))
             l, r = opnd(c[2]), opnd(c[3])
             return {"==": l.__eq__, "!=": l.__ne__, "<": l.__lt__, "<=": l.__le__, ">": l.__gt__, ">=": l.__ge__}[c[1]](r)
         if k == "contains":
@@ -984,6 +992,11 @@ def gen_case(rng: Rng, profile: str = "c01", extras: bool = False) -> dict:
         r = rng.random()
         pvars = [n for n in names if case["vars"][n] == "P"]
         tvars = [n for n in names if case["vars"][n] == "T"]
+        if profile in ("c01", "share") and rng.chance(0.03):     # a bool constant as a condition
+            return ["cmp", rng.choice(["==", "!="]), ["lit", 0], ["lit", rng.randint(0, 1)], "const"]
+        ivars = [n for n in names if case["vars"][n] == "int" and n not in qvars]
+        if profile in ("c01", "share") and ivars and rng.chance(0.03):     # a bare int variable as a condition
+            return ["cmp", "!=", ["var", rng.choice(ivars)], ["lit", 0], "bare"]
         if profile != "c02" and pvars and rng.chance(0.3 if profile == "share" else 0.04):   # a bare attribute as a condition (its truthiness)
             return ["cmp", "!=", ["attr", ["var", rng.choice(pvars)], rng.choice(["a", "b"])], ["lit", 0], "bare"]
         if r < 0.10 and pvars:   # contains(items, int)
